@@ -11,12 +11,26 @@ TailsR == {"r1", "r1_prop", "r1_block_pv2", "r1_commit_noblock", "r1v", "r1v_rep
            "r2", "r2_pv2"}
 TailsD == {"decided_strag", "decided_eq", "eq_nil"}
 \* quick: a cross-section of every family
-QuickNode == {E(0, t) : t \in {"prop_part0", "block_pv2", "block_polka_pc2", "polka_noprop", "commit_part0", "r1_block_pv2", "r1v_reprop_block", "decided_eq", "ahead_pv1"}}
-             \cup {E(1, t) : t \in {"newheight", "block_pv2"}} \cup {E(2, t) : t \in {"propose", "decided_strag"}}
-QuickPeer == {E(0, t) : t \in {"newheight", "propose", "prop", "block_pv2", "nilpolka", "commit_noblock", "r1", "r1_prop", "r1_reprop_nopol", "r2", "eq_nil", "block_pv2_wait"}}
-             \cup {E(1, t) : t \in {"newheight", "prop_part0"}}
+QuickNode == {E(0, t) : t \in {"prop_part0", "block_polka_pc2", "polka_noprop", "commit_part0", "r1_block_pv2", "r1v_reprop_block", "decided_eq", "ahead_pv1"}}
+             \cup {E(1, t) : t \in {"newheight"}} \cup {E(2, t) : t \in {"propose", "decided_strag"}}
+QuickPeer == {E(0, t) : t \in {"newheight", "propose", "block_pv2", "nilpolka", "commit_noblock", "r1_prop", "r1_reprop_nopol", "r2", "eq_nil", "block_pv2_wait"}}
+             \cup {E(1, t) : t \in {"prop_part0"}}
 FullNode == {E(0, t) : t \in Tails0 \cup TailsR \cup TailsD} \cup {E(1, t) : t \in Tails0 \cup {"r1_block_pv2", "decided_strag", "decided_eq"}}
             \cup {E(2, t) : t \in {"newheight", "propose", "block_pv2", "commit_part0", "decided_strag"}}
 FullPeer == {E(0, t) : t \in Tails0 \cup TailsR \cup {"eq_nil"}} \cup {E(1, t) : t \in Tails0 \cup {"r1", "eq_nil"}}
             \cup {E(2, t) : t \in {"newheight", "propose", "prop_part0"}}
+\* one named gap removed from the exemptions: TLC must then refute GossipComplete (the gap is real in the model)
+NoG1 == AllGaps \ {"G1_PeerAheadRound"}
+NoG2 == AllGaps \ {"G2_CommitOtherRound"}
+NoG4 == AllGaps \ {"G4_POLRoundUnknown"}
+NoG5 == AllGaps \ {"G5_HeaderUnknown"}
+NoG6 == AllGaps \ {"G6_POLShadowedByCatchupRound"}
+\* liveness (no starvation under weak fairness of the three routines): small menus, TLC checks the temporal property
+LiveNode == {E(0, t) : t \in {"block_polka_pc2", "r1v_reprop_block", "decided_eq"}} \cup {E(2, "propose")}
+LivePeer == {E(0, t) : t \in {"propose", "block_pv2_wait", "commit_noblock", "eq_nil"}}
+\* non-vacuity menus: small, every Weak_* switch and every gap is exhibited
+NVNode == {E(0, t) : t \in {"commit_part0", "prop_part0", "polka_noprop", "r1v_reprop_block", "decided_eq", "ahead_pv1"}} \cup {E(2, "propose")}
+NVPeer == {E(0, t) : t \in {"propose", "commit_noblock", "block_pv2_wait", "r1_prop", "r1_reprop_nopol", "eq_nil"}}
+LiveNodeQ == {E(0, "decided_eq")}
+LivePeerQ == {E(0, t) : t \in {"propose", "eq_nil"}}
 ====
